@@ -85,6 +85,7 @@ static void note(struct sub *S, const char *fmt, ...) {
     va_start(ap, fmt);
     vprintf(fmt, ap);
     va_end(ap);
+    if(shard_n > 1) printf(" [shard %u of %u]", shard_i + 1, shard_n);
     printf("\n");
 }
 
@@ -446,7 +447,7 @@ static void strto_check(struct sub *S, const char *s, size_t n) {
     if(!b) { oracle_error("malloc failed"); return; }
     memcpy(b, s, n);
     if(!seen_before(s, n)) S->distinct++;
-    if((n == 3 && s[0] == '-') || (n > 24 && s[0] == '-' && s[1] == '0' && s[n - 1] == 'x')) sample(S, quoted(s, n));
+    if(S->name[6] == 'b' ? (n > 24 && s[0] != '0' && s[n - 1] == 'x') : (n == 3 && s[0] == '-' && s[2] == ' ')) sample(S, quoted(s, n));
     for(f = 0; f < 4; f++) {
         const char *end = b + n;
         int uns = (f == 1 || f == 3), code;
